@@ -4,6 +4,8 @@ From Coq Require Import List String Ascii Bool Arith.
 From Coq Require Import Lia.
 From Annet Require Import Base.Str Model.Pattern Spec.P_C07 Proofs.RegexProofs Proofs.PatternProofs.
 From Annet Require Import Model.PatternX Spec.P_C07X Proofs.PatternXProofs.
+From Annet Require Import Model.PatternT Spec.P_C07T Proofs.PatternTProofs.
+From Annet Require Import Model.PatternY Spec.P_C07Y Proofs.PatternYProofs.
 Import ListNotations.
 Open Scope string_scope.
 
@@ -394,4 +396,251 @@ Example C07X_ex_outside :
   /\ parse_xpat "vrrp6 vrid [11|12] virtual-ip FE80*" = None         (* `*` inside a word *)
   /\ parse_xpat "a ~/x/ b/c" = None                                  (* `/` after `~/re/` *)
   /\ parse_xpat "a ~/b/ ~" = None.
+Proof. vm_compute. repeat split. Qed.
+
+(* ============================================================================== *)
+(* The rule-TEXT parser in front of the pattern compiler (Model/PatternT.v: _parse_raw_rule
+   as reached through compile_patching_text / compile_acl_text / compile_ordering_text).
+   A rule is a sequence of WORDS: how they are spaced in the rulebook text does not matter. *)
+
+(* strip, then replace every run of blanks / tabs by one blank = the words joined by single
+   blanks.  For every text (no bound). *)
+Theorem C07T_collapse :
+  forall s, collapse_ws false (strip s) = join_with " " (words s).
+Proof. exact collapse_strip_words. Qed.
+Print Assumptions C07T_collapse.
+
+(* the row handed to compile_row_regexp / _make_reverse is the words of the line (%params
+   cut off) joined by single blanks *)
+Theorem C07T_row_words :
+  forall raw, raw_row raw = join_with " " (words (cut_params raw)).
+Proof. exact raw_row_words. Qed.
+Print Assumptions C07T_row_words.
+
+(* two lines with the same words give the same row, hence the same regexps, keys, removal
+   command and reverse forms *)
+Theorem C07T_spacing_irrelevant :
+  forall a b, words (cut_params a) = words (cut_params b) ->
+    raw_row a = raw_row b
+    /\ (forall ic row, text_direct a ic row = text_direct b ic row)
+    /\ (forall prefix row, text_reverse a prefix row = text_reverse b prefix row)
+    /\ (forall prefix, text_template a prefix = text_template b prefix).
+Proof.
+  intros a b H. assert (R : raw_row a = raw_row b) by (apply raw_row_spacing; exact H).
+  unfold text_direct, text_reverse, text_template. rewrite R. repeat split.
+Qed.
+Print Assumptions C07T_spacing_irrelevant.
+
+(* the row is in the single-blank normal form that the reverse side relies on (wf_row: what
+   row.startswith(prefix + blank) and the removal template assume), with the line's words *)
+Theorem C07T_row_normal_form :
+  forall raw, words (cut_params raw) <> [] -> forallb word_ok (words (cut_params raw)) = true ->
+    wf_row (raw_row raw) = true /\ words (raw_row raw) = words (cut_params raw).
+Proof. exact raw_row_wf. Qed.
+Print Assumptions C07T_row_normal_form.
+
+(* a line already in normal form and without %params is left unchanged: the rule rows of
+   the theorems above (C07_..., C07X_...) are exactly what the text parser produces *)
+Theorem C07T_row_fixed :
+  forall r, wf_row r = true -> has_param r = false -> raw_row r = r.
+Proof. exact raw_row_fixed. Qed.
+Print Assumptions C07T_row_fixed.
+
+(* the model of the three text compilers satisfies the text-level predicate: patching regexp,
+   key and removal command, ACL rule id, ACL / ordering direct and reverse forms are those of
+   the pattern made of the words of the line and of its negation *)
+Theorem C07T_holds :
+  forall x, wf_C07T x = true -> P_C07T x (model_C07T x) = true.
+Proof. exact P_C07T_model. Qed.
+Print Assumptions C07T_holds.
+
+(* non-vacuity: tabs, runs of blanks, alignment blanks before the %params *)
+Example C07T_ex :
+  let tabs := String tab (String tab "") in
+  let raw := ("no" ++ tabs ++ "ip   proxy-arp     %comment=x  %global")%string in
+  raw_row raw = "no ip proxy-arp"
+  /\ text_template raw "no" = "ip proxy-arp"
+  /\ text_reverse raw "no" "ip proxy-arp" = Some []
+  /\ raw_row "mtu     */\d+/" = "mtu */\d+/"
+  /\ text_template "description   ~" "no" = "no description {}"
+  /\ raw_row "a%b  %c" = "a"                      (* the cut is at the first percent sign *)
+  /\ raw_row "a %1" = "a %1"                       (* no parameter recognised: nothing is cut *)
+  /\ wf_C07T (C07TIn raw ("  no ip" ++ tabs ++ "proxy-arp") "no ip  proxy-arp  %order_reverse" "no" false
+                     ["K"] ["no ip proxy-arp"; "ip proxy-arp x"]) = true.
+Proof. vm_compute. repeat split. Qed.
+
+(* ============================================================================== *)
+(* ignore_case for the extended language of Model/PatternX.v: with ignore_case / (?i) the
+   outcome depends on the row only up to ASCII letter case (the key itself is spelled as in
+   the row: C07X_match_iff).  For every pattern, both peculiarities of compile_row_regexp
+   included (cap: groups left capturing, nb: no trailing boundary). *)
+Theorem C07X_ignore_case :
+  forall cap nb p ws,
+    option_map (map lower_str) (xmatch_words cap nb p true (map lower_str ws)) =
+    option_map (map lower_str) (xmatch_words cap nb p true ws).
+Proof. exact xmatch_words_ic_row. Qed.
+Print Assumptions C07X_ignore_case.
+
+(* a regex word without its trailing boundary (the `~/re/` peculiarity) is case-blind too *)
+Theorem C07X_ignore_case_tok :
+  forall loose t x, xtok_ok true loose t (lower_str x) = xtok_ok true loose t x.
+Proof. exact xtok_ok_lower. Qed.
+Print Assumptions C07X_ignore_case_tok.
+
+(* ============================================================================== *)
+(* The second extension (Model/PatternY.v): a placeholder glued to a literal suffix
+   (`*/(ip|ipv6)/-prefix`), and special last words: `w...` (no boundary), `w~` (binds the rest
+   of the text after w), `*/a.*/` and `*/a.+/` (`.` crosses blanks: binds the whole rest of the
+   row), `w$` and `*/r$/` (last word of the row).  PatternX is its sub-language
+   (C07Y_conservative), so the statements below also speak about PatternX and plain patterns. *)
+
+(* the model of compile_row_regexp matches a row and extracts `key` exactly when the
+   declarative relation holds (Spec/P_C07Y.v: one word per token, a glued placeholder binds
+   the part of its word before the suffix, the last word as described above) *)
+Theorem C07Y_match_iff :
+  forall (p : ypat) (ic : bool) (row : string) (key : list string),
+    yquirk_free p = true ->
+    (ypmatch p ic row = Some key <-> ypat_spec ic p (words row) key).
+Proof. exact ypmatch_iff. Qed.
+Print Assumptions C07Y_match_iff.
+
+(* on the new forms no guard is needed: token loop and last word against the relation *)
+Theorem C07Y_match_iff_new :
+  forall ic e p ws key, ymatch_toks ic e p ws = Some key <-> ymatches_spec ic e p ws key.
+Proof. exact ymatch_toks_iff. Qed.
+Print Assumptions C07Y_match_iff_new.
+
+Theorem C07Y_spec_checker :
+  forall p ic row key, yref_match p ic row = Some key <-> ypat_spec ic p (words row) key.
+Proof. exact yref_match_iff. Qed.
+Print Assumptions C07Y_spec_checker.
+
+Theorem C07Y_key_unique :
+  forall ic p ws k1 k2, ypat_spec ic p ws k1 -> ypat_spec ic p ws k2 -> k1 = k2.
+Proof. exact ypat_spec_functional. Qed.
+Print Assumptions C07Y_key_unique.
+
+(* one key entry per placeholder (glued ones and binding last words included) *)
+Theorem C07Y_key_length :
+  forall p ic row key, yproj p = None -> ypmatch p ic row = Some key -> List.length key = ynholes p.
+Proof.
+  intros p ic row key N H. unfold ypmatch in H. rewrite N in H.
+  apply ymatch_key_length in H. exact H.
+Qed.
+Print Assumptions C07Y_key_length.
+
+(* what the last words mean at character level *)
+Theorem C07Y_rest_lang :
+  forall ic r w, sre_run_pre1 ic r w = true <->
+    exists u v, w = (u ++ v)%list /\ v <> [] /\ sre_lang ic r u.
+Proof. intros. apply sre_run_pre1_lang. Qed.
+Print Assumptions C07Y_rest_lang.
+
+(* PatternX is the sub-language without the new forms: same parse, same matcher, and the
+   relation of the new language read on an embedded pattern is PatternX's relation *)
+Theorem C07Y_conservative :
+  forall rule xp, xrule_pat rule = Some xp ->
+    yrule_pat rule = Some (yembed xp)
+    /\ (forall ic row, yrule_match rule ic row = xrule_match rule ic row)
+    /\ (forall ic ws key, ypat_spec ic (yembed xp) ws key <-> xp <> [] /\ xmatches_spec ic xp ws key).
+Proof.
+  intros rule xp H. split; [apply yrule_pat_conservative; exact H|]. split.
+  - intros ic row. eapply yrule_match_conservative; eauto.
+  - intros. unfold ypat_spec. rewrite yproj_embed. tauto.
+Qed.
+Print Assumptions C07Y_conservative.
+
+Theorem C07Y_relation_conservative :
+  forall ic xp ws key, forallb (fun t => negb (is_xtilde t)) xp = true ->
+    (ymatches_spec ic EPlain (map YX xp) ws key <-> xmatches_spec ic xp ws key)
+    /\ (ymatches_spec ic ETilde (map YX xp) ws key <-> xmatches_spec ic (xp ++ [XTilde])%list ws key).
+Proof.
+  intros ic xp ws key H. split; [apply ymatches_spec_embed | apply ymatches_spec_embed_tilde]; exact H.
+Qed.
+Print Assumptions C07Y_relation_conservative.
+
+(* the rule-text parser returns only well-formed patterns that print back to the very text *)
+Theorem C07Y_print_parse :
+  forall s p, parse_ypat s = Some p -> wf_ypat p = true /\ print_ypat p = s.
+Proof. exact parse_ypat_sound. Qed.
+Print Assumptions C07Y_print_parse.
+
+(* ignore_case for the second extension *)
+Theorem C07Y_ignore_case :
+  forall e p ws,
+    option_map (map lower_str) (ymatch_toks true e p (map lower_str ws)) =
+    option_map (map lower_str) (ymatch_toks true e p ws).
+Proof. exact ymatch_toks_ic_row. Qed.
+Print Assumptions C07Y_ignore_case.
+
+(* the matching part of the predicate evaluated on implementation outputs holds of the model,
+   for every rule row of the language on which PatternX's two peculiarities do not show *)
+Theorem C07Y_holds_partial :
+  forall x, qf_C07Y x = true -> P_C07Y_match x (model_C07Y x) = true.
+Proof. exact P_C07Y_match_model. Qed.
+Print Assumptions C07Y_holds_partial.
+
+(* NOT proved (correspondence-tested only, on every shipped line of the second extension):
+   the removal-command half of P_C07Y for the new forms, i.e. that the text-level
+   _make_reverse(print_ypat p, prefix).format(key) equals the token-level reading yref_reverse.
+   Missing: the per-token lemmas of Proofs/PatternXProofs.v (tilde_to_hole / sub_star /
+   strip_tilde / format) for YGlue and the special last words.  For patterns of PatternX
+   it is C07X_reverse. *)
+Definition C07Y_reverse_statement : Prop :=
+  forall p prefix key, wf_ypat p = true -> plain_word prefix = true -> yproj p = None ->
+    format_template_opt (make_reverse (print_ypat p) prefix) key = yref_reverse p prefix key.
+
+Theorem C07Y_reverse_partial :
+  forall xp prefix key, wf_xpat xp = true -> plain_word prefix = true ->
+    lead_ok (reverse_xpat xp prefix) = true ->
+    format_template_opt (make_reverse (print_ypat (yembed xp)) prefix) key = yref_reverse (yembed xp) prefix key.
+Proof.
+  intros xp prefix key W P L. unfold yref_reverse. rewrite yproj_embed, print_ypat_embed.
+  apply make_reverse_xformat; assumption.
+Qed.
+Print Assumptions C07Y_reverse_partial.
+
+(* non-vacuity *)
+Example C07Y_ex_parse :
+  yrule_pat "ip */(ip|ipv6)/-prefix * index 99999999" =
+    Some (YPat [YX (XLit "ip");
+                YGlue (SGrp true (SAlt (SCat (SChr "i") (SChr "p"))
+                                       (SCat (SChr "i") (SCat (SChr "p") (SCat (SChr "v") (SChr "6")))))) "-prefix";
+                YX XStar; YX (XLit "index"); YX (XLit "99999999")] EPlain)
+  /\ yrule_pat "name:~" = Some (YPat [] (ELitTilde "name:"))
+  /\ yrule_pat "a_ant_pol:..." = Some (YPat [] (EDots "a_ant_pol:"))
+  /\ yrule_pat "undo system tcam acl$" = Some (YPat [YX (XLit "undo"); YX (XLit "system"); YX (XLit "tcam")] (EEndLit "acl"))
+  /\ option_map y_end (yrule_pat "vlan */[^\d].*/") = Some (ERest (SSet true [CCls KDigit]) false)
+  /\ option_map yquirk_free (yrule_pat "interface */Tunnel.+/") = Some true.
+Proof. vm_compute. repeat split. Qed.
+
+Example C07Y_ex_match :
+  yrule_match "interface */Tunnel.*/" false "interface Tunnel1 mode gre" = Some ["Tunnel1 mode gre"]
+  /\ yrule_match "interface */Tunnel.+/" false "interface Tunnel" = None
+  /\ yrule_match "vlan */[^\d].*/" false "vlan batch 1 2" = Some ["batch 1 2"]
+  /\ yrule_match "vlan */[^\d].*/" false "vlan 10" = None
+  /\ yrule_match "name:~" false "name: ap 7" = Some [" ap 7"]
+  /\ yrule_match "name:~" false "name:" = None
+  /\ yrule_match "ip */(ip|ipv6)/-prefix * index 99999999" false "ip ipv6-prefix P index 99999999" = Some ["ipv6"; "P"]
+  /\ yrule_match "ip */(ip|ipv6)/-prefix" false "ip ipv6-prefixes" = None
+  /\ yrule_match "a_ant_pol:..." false "a_ant_pol:1 z" = Some []
+  /\ yrule_match "undo system tcam acl$" false "undo system tcam acl x" = None
+  /\ yrule_match "interface */(ce|xe|eth)[0-9\/]+$/" true "interface XE0/1" = Some ["XE0/1"].
+Proof. vm_compute. repeat split. Qed.
+
+Example C07Y_ex_reverse :
+  make_reverse "ip */(ip|ipv6)/-prefix * index 99999999" "undo" = "undo ip {}-prefix {} index 99999999"
+  /\ option_map (fun p => yref_reverse p "undo" ["ipv6"; "P"]) (yrule_pat "ip */(ip|ipv6)/-prefix * index 99999999")
+     = Some (Some "undo ip ipv6-prefix P index 99999999")
+  /\ format_template_opt (make_reverse "name:~" "no") [" ap 7"] = Some "no name: ap 7"
+  /\ option_map (fun p => yref_reverse p "no" [" ap 7"]) (yrule_pat "name:~") = Some (Some "no name: ap 7").
+Proof. vm_compute. repeat split. Qed.
+
+Example C07Y_ex_outside :
+  yrule_pat "*/wifi0_arm_(channel|power_10x)/:..." = None          (* glued placeholder without a boundary *)
+  /\ yrule_pat "interface */(Vlanif1$|NULL)/" = None               (* `$` inside an alternative *)
+  /\ yrule_pat "undo interface */.*[.]\d+/" = None                 (* `.*` not at the end *)
+  /\ yrule_pat "ieee-802.1 *" = None                               (* `.` in a literal word *)
+  /\ yrule_pat "print file=*" = None                               (* `*` inside a word *)
+  /\ yrule_pat "undo (ftp|FTP) (server source|server-source)" = None.
 Proof. vm_compute. repeat split. Qed.
